@@ -333,6 +333,9 @@ impl CodegenContext {
         self.current_segment = self.segments.keys().next().cloned();
         self.test_elements.clear();
         self.source_map.clear();
+        // What a name refers to may differ between passes (e.g. a symbol that is defined further on shadows an outer
+        // one from the second pass on), so the usages of the previous pass do not carry over
+        self.analysis = Analysis::new(self.tree.clone());
     }
 
     fn try_current_target_pc(&self) -> Option<ProgramCounter> {
